@@ -1,27 +1,38 @@
 ----------------------------- MODULE RoundRobin -----------------------------
-(* Layers A and B for C10 (src/backend.rs send_round_robin, src/req.rs send): a queue of peer ids;
-   a send pops the head, skips ids whose peer has vanished, writes the message to that peer and
-   pushes the id back (REQ pushes it back before writing).  Peers join at any time (push at the
-   tail) and may vanish.  Layer A: over any stretch with a stable set of n peers, every n consecutive
-   successful sends reach n different peers; a joiner is served within the next n successes; with
-   no peer the send is refused.  Dev: spec mutants ("push_front", "push_twice", "no_push_back"). *)
+(* Layers A and B for C10 (src/backend.rs Rotation / send_round_robin, src/req.rs send): the rotation is a
+   queue that holds every registered identity once.  A send takes the identity at the front, skips
+   and purges identities whose peer has vanished, writes the message to that peer and only then moves
+   the identity to the back; a send that is abandoned while it waits changes nothing.  Peers join at
+   any time (at the back, unless the identity is queued already: a peer that comes back under its
+   identity, also while its old connection is still registered) and may vanish.  Layer A: over any
+   stretch with a stable set of n peers, every n consecutive successful sends reach n different
+   peers; a joiner is served within the next n successes; with no peer the send is refused.
+   Dev: the mechanism of the pinned tree ("dup_on_rejoin": every registration appends the identity;
+   "pop_before_send": the identity is taken out before the write and appended after success, so an
+   abandoned send loses it) and spec mutants ("push_front", "push_twice", "no_push_back").       *)
 EXTENDS Naturals, Sequences, FiniteSets, TLC
-CONSTANTS Peers, MaxSends, Dev
-VARIABLES q, live, hits, nsends, jwait, bad
-vars == <<q, live, hits, nsends, jwait, bad>>
-Init == q = <<>> /\ live = {} /\ hits = <<>> /\ nsends = 0 /\ jwait = [p \in Peers |-> 0 - 1] /\ bad = {}
-Join(p) == /\ p \notin live /\ (\A i \in 1..Len(q) : q[i] # p)          \* a fresh identity
-           /\ live' = live \cup {p} /\ q' = Append(q, p) /\ hits' = <<>> /\ jwait' = [jwait EXCEPT ![p] = 0]
-           /\ UNCHANGED <<nsends, bad>>
+CONSTANTS Peers, MaxSends, MaxCancels, Dev
+VARIABLES q, live, hits, nsends, jwait, bad, ncancel
+vars == <<q, live, hits, nsends, jwait, bad, ncancel>>
+Init == q = <<>> /\ live = {} /\ hits = <<>> /\ nsends = 0 /\ jwait = [p \in Peers |-> 0 - 1] /\ bad = {} /\ ncancel = 0
+InQ(p) == \E i \in 1..Len(q) : q[i] = p
+Enqueue(p) == IF InQ(p) /\ "dup_on_rejoin" \notin Dev THEN q ELSE Append(q, p)
+Join(p) == /\ p \notin live                                              \* a new peer, or one that comes back (its old identity may still be queued)
+           /\ live' = live \cup {p} /\ q' = Enqueue(p) /\ hits' = <<>> /\ jwait' = [jwait EXCEPT ![p] = 0]
+           /\ UNCHANGED <<nsends, bad, ncancel>>
+Supersede(p) == /\ p \in live                                            \* a new connection under the identity of a registered peer
+                /\ q' = Enqueue(p) /\ hits' = <<>>
+                /\ jwait' = [x \in Peers |-> IF x = p THEN 0 ELSE IF jwait[x] >= 0 THEN 0 ELSE jwait[x]]
+                /\ UNCHANGED <<live, nsends, bad, ncancel>>
 Vanish(p) == /\ p \in live /\ live' = live \ {p} /\ hits' = <<>>
              /\ jwait' = [x \in Peers |-> IF x = p THEN 0 - 1 ELSE IF jwait[x] >= 0 THEN 0 ELSE jwait[x]]   \* windows restart when the set changes
-             /\ UNCHANGED <<q, nsends, bad>>                              \* its id stays in the queue (SegQueue cannot delete)
+             /\ UNCHANGED <<q, nsends, bad, ncancel>>                     \* its id stays queued until a send finds it dead (or the socket forgets the peer)
 RECURSIVE SkipDead(_)
 SkipDead(s) == IF s = <<>> \/ Head(s) \in live THEN s ELSE SkipDead(Tail(s))
 Distinct(s) == \A i, j \in 1..Len(s) : i # j => s[i] # s[j]
 LastN(s, n) == SubSeq(s, Len(s) - n + 1, Len(s))
 Send ==
-  /\ nsends < MaxSends /\ nsends' = nsends + 1
+  /\ nsends < MaxSends /\ nsends' = nsends + 1 /\ UNCHANGED ncancel
   /\ LET s == SkipDead(q) IN
      IF s = <<>> THEN
           /\ q' = <<>> /\ UNCHANGED <<live, hits, jwait>>
@@ -38,7 +49,13 @@ Send ==
           /\ hits' = h /\ jwait' = jw /\ UNCHANGED live
           /\ bad' = bad \cup (IF Len(h) >= 2 /\ ~Distinct(LastN(h, IF Len(h) < n THEN Len(h) ELSE n)) THEN {"C10/rotation-repeat-within-n"} ELSE {})
                         \cup (IF \E x \in live : jw[x] > n THEN {"C10/joiner-never-served"} ELSE {})
-Next == Send \/ \E p \in Peers : Join(p) \/ Vanish(p)
+Cancel ==       \* a send reaches the write to the peer at the front and is abandoned while it waits on back-pressure
+  /\ ncancel < MaxCancels /\ ncancel' = ncancel + 1
+  /\ LET s == SkipDead(q) IN
+     /\ s # <<>>
+     /\ q' = IF "pop_before_send" \in Dev THEN Tail(s) ELSE s
+  /\ UNCHANGED <<live, hits, nsends, jwait, bad>>
+Next == Send \/ Cancel \/ \E p \in Peers : Join(p) \/ Supersede(p) \/ Vanish(p)
 Spec == Init /\ [][Next]_vars
 Refines == bad = {}
 =============================================================================
